@@ -7,6 +7,10 @@ package main
 
 import (
 	"fmt"
+	"math"
+	"math/big"
+	"os"
+	"regexp"
 	"sort"
 	"strings"
 )
@@ -154,7 +158,8 @@ func (m *Matcher) eqTerms(a, b *Term) (bool, string) {
 				m.Env.Dom[c.dom] = Domain{Lo: v, Hi: v}
 			}
 		}
-		// a point is admissible when both sides agree on being outside the panic region
+		// a point is admissible when both sides are outside the panic region (agreement of the panic regions themselves
+		// is R-PRECOND's business)
 		inA, inB := false, false
 		for _, p := range m.preA {
 			if m.Env.Eval(p).B {
@@ -262,12 +267,64 @@ func isPanicItem(it interface{}) (*Event, bool) {
 
 func (m *Matcher) matchRegion(ra, rb *Region, ctx string) {
 	ia, ib := liveItems(ra, m.IgnoreCallees), liveItems(rb, m.IgnoreCallees)
+	// returns end the path they are on, so where a return sits among the items of its region is immaterial (block
+	// layout decides it): they are matched by path condition after everything else
+	splitRets := func(items []interface{}) (rest []interface{}, rets []*Event) {
+		for _, it := range items {
+			if e, ok := it.(*Event); ok && e.Kind == "return" {
+				rets = append(rets, e)
+			} else {
+				rest = append(rest, it)
+			}
+		}
+		return
+	}
+	var retsA, retsB []*Event
+	ia, retsA = splitRets(ia)
+	ib, retsB = splitRets(ib)
+	defer func() {
+		if len(m.Fails) > 0 {
+			return
+		}
+		if len(retsA) != len(retsB) {
+			m.fail("%s: %d return sites vs %d in the reference", ctx, len(retsA), len(retsB))
+			return
+		}
+		used := make([]bool, len(retsB))
+		for u, a := range retsA {
+			pick := -1
+			for v, b := range retsB {
+				if used[v] {
+					continue
+				}
+				m.quiet++
+				ok, _ := m.eqTerms(a.Guard, b.Guard)
+				m.quiet--
+				if ok {
+					pick = v
+					break
+				}
+			}
+			if pick < 0 {
+				// report against the positional partner
+				for v := range retsB {
+					if !used[v] {
+						pick = v
+						break
+					}
+				}
+			}
+			used[pick] = true
+			m.matchEvent(a, retsB[pick], fmt.Sprintf("%s/ret%d", ctx, u))
+		}
+	}()
 	i, j, k := 0, 0, 0
 	for i < len(ia) || j < len(ib) {
 		// input-validation panics are preconditions: registered when the walk passes them, on either side
 		if i < len(ia) {
 			if e, ok := isPanicItem(ia[i]); ok {
 				m.preA = append(m.preA, m.ctxGuard(e.Guard, true))
+				m.lenPrecond(e.Guard, m.A.Params)
 				i++
 				continue
 			}
@@ -275,12 +332,45 @@ func (m *Matcher) matchRegion(ra, rb *Region, ctx string) {
 		if j < len(ib) {
 			if e, ok := isPanicItem(ib[j]); ok {
 				m.preB = append(m.preB, m.ctxGuard(e.Guard, false))
+				m.lenPrecond(e.Guard, m.B.Params)
 				j++
 				continue
 			}
 		}
 		if i >= len(ia) || j >= len(ib) {
 			break
+		}
+		// a run of consecutive allocations is matched as a multiset (declaration order of scratch objects is immaterial)
+		if n := allocRun(ia[i:]); n > 1 && n == allocRun(ib[j:]) {
+			if perm, ok := m.pairAllocs(ia[i:i+n], ib[j:j+n]); ok {
+				for u := 0; u < n; u++ {
+					m.matchEvent(ia[i+u].(*Event), ib[j+perm[u]].(*Event), fmt.Sprintf("%s/%d", ctx, k))
+					k++
+				}
+				i += n
+				j += n
+				continue
+			}
+		}
+		// so is a run of consecutive loads (reads commute with each other)
+		if n := loadRun(ia[i:]); n > 1 && n == loadRun(ib[j:]) {
+			if perm, ok := m.pairLoads(ia[i:i+n], ib[j:j+n]); ok {
+				for u := 0; u < n; u++ {
+					m.matchEvent(ia[i+u].(*Event), ib[j+perm[u]].(*Event), fmt.Sprintf("%s/%d", ctx, k))
+					k++
+				}
+				i += n
+				j += n
+				continue
+			}
+		}
+		// items under mutually exclusive path conditions commute (the two arms of an if/else written in the other
+		// order): when the partner in line runs under a different condition, a later reference item with the same
+		// condition may be brought forward across items it is exclusive with
+		if jj := m.commutingPartner(ia[i], ib, j); jj > j {
+			it := ib[jj]
+			copy(ib[j+1:jj+1], ib[j:jj])
+			ib[j] = it
 		}
 		switch a := ia[i].(type) {
 		case *Event:
@@ -333,12 +423,31 @@ func (m *Matcher) cmp(what, ctx, where string, a, b *Term) bool {
 	return true
 }
 
+// cmpGuard compares path conditions on unconstrained inputs: the sampling shortcuts derived from equality
+// preconditions (lenPrecond) would make a condition that merely restates the precondition look like `true`, and
+// hide an effect that was moved in front of the refusal.
+func (m *Matcher) cmpGuard(what, ctx, where string, a, b *Term) bool {
+	m.Env.NoPre = true
+	ok, why := m.eqTerms(a, b)
+	m.Env.NoPre = false
+	if !ok {
+		m.fail("%s [%s]: %s differs from the reference: %s\n      code: %s\n      ref:  %s", ctx, where, what, why, trunc(fmt.Sprint(a), 300), trunc(fmt.Sprint(b), 300))
+		return false
+	}
+	return true
+}
+
 func normType(t string) string {
 	t = strings.ReplaceAll(t, "verif/checker/ref.", "")
 	t = strings.ReplaceAll(t, modPath+"/fft.", "")
 	t = strings.ReplaceAll(t, modPath+".", "")
+	// make([]T, 32) allocates a [32]T backing array in SSA when the length is constant and a []T otherwise: the
+	// length is compared separately
+	t = reArrayLen.ReplaceAllString(t, "[]")
 	return t
 }
+
+var reArrayLen = regexp.MustCompile(`^\[\d+\]`)
 
 func (m *Matcher) matchEvent(a, b *Event, ctx string) {
 	m.nEvents++
@@ -347,7 +456,9 @@ func (m *Matcher) matchEvent(a, b *Event, ctx string) {
 		m.fail("%s [%s]: code performs %s where the reference performs %s\n      code: %s\n      ref:  %s", ctx, where, a.Kind, b.Kind, trunc(a.String(m.PA), 240), trunc(b.String(m.PB), 240))
 		return
 	}
-	if !m.cmp("guard (path condition) of "+a.Kind, ctx, where, a.Guard, b.Guard) {
+	// an allocation has no effect of its own: under which condition the object comes into being is immaterial
+	// (every use of it is compared under the use's own condition)
+	if a.Kind != "alloc" && !m.cmpGuard("guard (path condition) of "+a.Kind, ctx, where, a.Guard, b.Guard) {
 		return
 	}
 	switch a.Kind {
@@ -429,7 +540,7 @@ func nonAffine(l *LoopS) []*Carried {
 func (m *Matcher) matchLoop(a, b *LoopS, ctx string) {
 	m.nLoops++
 	where := m.PA.Pos(a.Pos)
-	if !m.cmp("loop entry condition", ctx, where, a.Guard, b.Guard) {
+	if !m.cmpGuard("loop entry condition", ctx, where, a.Guard, b.Guard) {
 		return
 	}
 	m.deriveLoopCanon(a, b, ctx)
@@ -450,6 +561,7 @@ func (m *Matcher) matchLoop(a, b *LoopS, ctx string) {
 		return
 	}
 	// candidate partners by type and initial value
+	noCand := ""
 	n := len(ca)
 	cand := make([][]int, n)
 	for i, x := range ca {
@@ -464,9 +576,8 @@ func (m *Matcher) matchLoop(a, b *LoopS, ctx string) {
 				cand[i] = append(cand[i], j)
 			}
 		}
-		if len(cand[i]) == 0 {
-			m.fail("%s [%s]: accumulator %s (initial value %v) has no counterpart with the same type and initial value in the reference (%s)", ctx, where, x.Name, x.Init, carriedInits(cb))
-			return
+		if len(cand[i]) == 0 && noCand == "" {
+			noCand = fmt.Sprintf("%s [%s]: accumulator %s (initial value %v) has no counterpart with the same type and initial value in the reference (%s)", ctx, where, x.Name, x.Init, carriedInits(cb))
 		}
 	}
 	// enumerate assignments
@@ -515,7 +626,53 @@ func (m *Matcher) matchLoop(a, b *LoopS, ctx string) {
 		}
 		return false
 	}
-	if !rec(0) {
+	if noCand != "" || !rec(0) {
+		if noCand != "" && best == nil {
+			best = []string{noCand}
+		}
+		// integer counters kept in a different but affinely related form (ones vs ones-zeros, 1-based vs 0-based ...)
+		{
+			snapAlias := map[*Symbol]*Term{}
+			for k, v := range m.Env.Alias {
+				snapAlias[k] = v
+			}
+			snapCanon := map[*Symbol]string{}
+			for k, v := range m.Env.Canon {
+				snapCanon[k] = v
+			}
+			if ra, rb, ok := m.affineAlias(a, b, ca, cb, ctx); ok {
+				ca, cb = ra, rb
+				n = len(ca)
+				if n == len(cb) {
+					cand = make([][]int, n)
+					okc := true
+					for i, x := range ca {
+						for j, y := range cb {
+							if x.Ty != y.Ty {
+								continue
+							}
+							m.quiet++
+							ok2, _ := m.eqTerms(x.Init, y.Init)
+							m.quiet--
+							if ok2 {
+								cand[i] = append(cand[i], j)
+							}
+						}
+						if len(cand[i]) == 0 {
+							okc = false
+						}
+					}
+					perm = make([]int, n)
+					used = make([]bool, n)
+					tries = 0
+					if okc && rec(0) {
+						return
+					}
+				}
+			}
+			m.Env.Alias = snapAlias
+			m.Env.Canon = snapCanon
+		}
 		if best == nil {
 			best = []string{fmt.Sprintf("%s [%s]: no assignment of accumulators to reference accumulators", ctx, where)}
 		}
@@ -561,4 +718,366 @@ func (m *Matcher) matchLoopBody(a, b *LoopS, ca, cb []*Carried, perm []int, ctx,
 		}
 	}
 	m.cmp("loop continuation condition", ctx, where, a.Cont, b.Cont)
+}
+
+// affineAlias looks for integer accumulators of the two loops that are affine images of each other
+// (x_B = p*x_A + r*iota + c with integer p, r): it identifies x_A canonically and defines x_B (and its
+// final value) through Env.Alias. It returns the accumulators that remain to be matched.
+func (m *Matcher) affineAlias(a, b *LoopS, ca, cb []*Carried, ctx string) ([]*Carried, []*Carried, bool) {
+	S := m.S
+	carriedSyms := func(cs []*Carried) map[*Symbol]bool {
+		s := map[*Symbol]bool{}
+		for _, c := range cs {
+			s[c.Sym] = true
+		}
+		return s
+	}
+	sa, sb := carriedSyms(ca), carriedSyms(cb)
+	// delta samples next-x for a counter (an integer accumulator, or a float accumulator moving in whole steps)
+	// whose update does not involve the other accumulators and whose increment does not depend on its own value
+	// (checked at two values of x per sample point)
+	delta := func(c *Carried, set map[*Symbol]bool) ([]int64, bool) {
+		if c.Ty != TInt && c.Ty != TFloat {
+			return nil, false
+		}
+		if DependsOn(c.Next, func(s *Symbol) bool { return set[s] && s != c.Sym }) {
+			return nil, false
+		}
+		var ds []int64
+		saved, had := m.Env.Over[c.Sym]
+		defer func() {
+			if had {
+				m.Env.Over[c.Sym] = saved
+			} else {
+				delete(m.Env.Over, c.Sym)
+			}
+		}()
+		for k := 0; k < m.Points; k++ {
+			var d [2]int64
+			for w, xv := range []int64{int64(k*7 + 3), int64(1000 + k*13)} {
+				m.Env.Reset(h64(m.Seed, "aff", ctx, k))
+				if c.Ty == TInt {
+					m.Env.Over[c.Sym] = Val{K: TInt, I: xv}
+					d[w] = m.Env.Eval(c.Next).I - xv
+				} else {
+					m.Env.Over[c.Sym] = Val{K: TFloat, F: float64(xv)}
+					f := m.Env.Eval(c.Next).F - float64(xv)
+					if f != math.Trunc(f) || math.Abs(f) > 1e9 {
+						return nil, false
+					}
+					d[w] = int64(f)
+				}
+			}
+			if d[0] != d[1] {
+				return nil, false
+			}
+			ds = append(ds, d[0])
+		}
+		return ds, true
+	}
+	constOf := func(t *Term) (int64, bool) {
+		if v, ok := t.IntVal(); ok {
+			return v, true
+		}
+		if f, ok := t.FloatVal(); ok && f == math.Trunc(f) && math.Abs(f) < 1e9 {
+			return int64(f), true
+		}
+		return 0, false
+	}
+	usedA, usedB := map[int]bool{}, map[int]bool{}
+	found := false
+	for i, x := range ca {
+		xs, okx := delta(x, sa)
+		if !okx {
+			continue
+		}
+		for j, y := range cb {
+			if usedB[j] || usedA[i] {
+				continue
+			}
+			if x.Ty == TFloat && y.Ty == TFloat {
+				continue // float accumulators are compared as they are
+			}
+			ys, oky := delta(y, sb)
+			if !oky {
+				continue
+			}
+			// the integer one is the base; the other is defined through it: other = p*base + r*iota + c
+			base, other, bs, os2, baseLoop := x, y, xs, ys, a
+			if x.Ty != TInt {
+				base, other, bs, os2, baseLoop = y, x, ys, xs, b
+			}
+			p, r, okFit := int64(0), int64(0), false
+			for k := 1; k < len(bs); k++ {
+				if bs[k] != bs[0] {
+					num, den := os2[k]-os2[0], bs[k]-bs[0]
+					if num%den == 0 {
+						p = num / den
+						r = os2[0] - p*bs[0]
+						okFit = true
+					}
+					break
+				}
+			}
+			if os.Getenv("VERIF_DEBUG_AFF") != "" {
+				fmt.Fprintf(os.Stderr, "aff %s: %s~%s base=%v other=%v p=%d r=%d ok=%v\n", ctx, x.Name, y.Name, bs, os2, p, r, okFit)
+			}
+			if !okFit || p == 0 {
+				continue
+			}
+			for k := range bs {
+				if os2[k] != p*bs[k]+r {
+					okFit = false
+				}
+			}
+			if !okFit || (p == 1 && r == 0 && x.Ty == y.Ty) {
+				continue // identical counters are handled by the ordinary matching
+			}
+			var c0 *Term
+			if other.Ty == TInt {
+				c0 = S.Sub(other.Init, S.MulC(base.Init, big.NewInt(p)))
+			} else {
+				oi, ok1 := constOf(other.Init)
+				bi, ok2 := constOf(base.Init)
+				if !ok1 || !ok2 {
+					continue
+				}
+				c0 = S.Int(oi - p*bi)
+			}
+			id := fmt.Sprintf("mu:%s:aff%d", ctx, i)
+			m.canonSet(base.Sym, nil, id)
+			m.canonSet(base.Fin, nil, "fin:"+id)
+			lin := func(xv, it *Term) *Term {
+				l := S.Add(S.Add(S.MulC(xv, big.NewInt(p)), S.MulC(it, big.NewInt(r))), c0)
+				if other.Ty == TFloat {
+					return S.Op("i2f", TFloat, l)
+				}
+				return l
+			}
+			m.Env.Alias[other.Sym] = lin(S.SymTerm(base.Sym), S.SymTerm(baseLoop.Iter))
+			if other.Fin != nil && base.Fin != nil {
+				fi := baseLoop.final[baseLoop.Iter]
+				if fi == nil {
+					fi = S.SymTerm(baseLoop.IterEnd)
+				}
+				m.Env.Alias[other.Fin] = lin(S.SymTerm(base.Fin), fi)
+			}
+			usedA[i], usedB[j] = true, true
+			found = true
+		}
+	}
+	if !found {
+		return nil, nil, false
+	}
+	var ra, rb []*Carried
+	for i, x := range ca {
+		if !usedA[i] {
+			ra = append(ra, x)
+		}
+	}
+	for j, y := range cb {
+		if !usedB[j] {
+			rb = append(rb, y)
+		}
+	}
+	return ra, rb, true
+}
+
+func allocRun(items []interface{}) int {
+	n := 0
+	for _, it := range items {
+		if e, ok := it.(*Event); ok && e.Kind == "alloc" {
+			n++
+		} else {
+			break
+		}
+	}
+	return n
+}
+
+func (m *Matcher) pairAllocs(as, bs []interface{}) ([]int, bool) {
+	perm := make([]int, len(as))
+	used := make([]bool, len(bs))
+	for u, x := range as {
+		a := x.(*Event)
+		found := false
+		for v, y := range bs {
+			b := y.(*Event)
+			if used[v] || normType(a.Type) != normType(b.Type) || (a.Len == nil) != (b.Len == nil) {
+				continue
+			}
+			m.quiet++
+			ok := true
+			if a.Len != nil {
+				ok, _ = m.eqTerms(a.Len, b.Len)
+			}
+			m.quiet--
+			if ok {
+				perm[u], used[v], found = v, true, true
+				break
+			}
+		}
+		if !found {
+			return nil, false
+		}
+	}
+	return perm, true
+}
+
+// lenPrecond: a precondition panic "len(p) != T" (p a parameter, T free of len(p)) means that every admissible
+// input has len(p) == T; sampling then draws len(p) as the value of T instead of independently, so that the
+// comparisons that follow are made at admissible points.
+func (m *Matcher) lenPrecond(g *Term, params []*Term) {
+	S := m.S
+	if g == nil || g.Op != "not" || len(g.Args) != 1 || g.Args[0].Op != "eq0" {
+		return
+	}
+	atoms, coefs, _ := linParts(g.Args[0].Args[0])
+	for i, at := range atoms {
+		if at.Op != "len" || len(at.Args) != 1 || at.Args[0].K != KSym {
+			continue
+		}
+		isParam := false
+		for _, p := range params {
+			if p == at.Args[0] {
+				isParam = true
+			}
+		}
+		c := coefs[i].Int64()
+		if !isParam || (c != 1 && c != -1) {
+			continue
+		}
+		// L = c*len + rest = 0  =>  len = -rest/c
+		rest := S.Sub(g.Args[0].Args[0], S.MulC(at, big.NewInt(c)))
+		if mentions(rest, at) {
+			continue
+		}
+		t := S.MulC(rest, big.NewInt(-c))
+		if t.Op != "lin" && t.K != KConst {
+			// len(p) == T with T a single quantity (a field, a parameter): T takes the length's (non-negative) value
+			if _, dup := m.Env.TermOver[t]; !dup {
+				m.Env.TermOver[t] = at
+			}
+			return
+		}
+		id := "len:" + m.Env.canonOf(at.Args[0].Sym)
+		if _, dup := m.Env.LenAlias[id]; !dup {
+			m.Env.LenAlias[id] = t
+		}
+		return
+	}
+}
+
+func itemGuard(it interface{}) *Term {
+	switch x := it.(type) {
+	case *Event:
+		return x.Guard
+	case *LoopS:
+		return x.Guard
+	}
+	return nil
+}
+
+func sameItemKind(a, b interface{}) bool {
+	switch x := a.(type) {
+	case *Event:
+		y, ok := b.(*Event)
+		return ok && x.Kind == y.Kind
+	case *LoopS:
+		_, ok := b.(*LoopS)
+		return ok
+	}
+	return false
+}
+
+// commutingPartner returns the index (>= j) of the reference item a should be matched with: j itself unless the
+// item at j runs under a different path condition and a later item of the same kind runs under a's condition and
+// is exclusive with everything it would overtake.
+func (m *Matcher) commutingPartner(a interface{}, ib []interface{}, j int) int {
+	ga := itemGuard(a)
+	if ga == nil || j >= len(ib) {
+		return j
+	}
+	same := func(b interface{}) bool {
+		gb := itemGuard(b)
+		if gb == nil || !sameItemKind(a, b) {
+			return false
+		}
+		m.quiet++
+		ok, _ := m.eqTerms(ga, gb)
+		m.quiet--
+		return ok
+	}
+	if same(ib[j]) {
+		return j
+	}
+	if os.Getenv("VERIF_DEBUG_COMM") != "" {
+		fmt.Fprintf(os.Stderr, "comm: looking for partner of %s (guard %v) at j=%d\n", descItem(m.PA, a), ga, j)
+	}
+	for jj := j + 1; jj < len(ib) && jj < j+32; jj++ {
+		if !same(ib[jj]) {
+			continue
+		}
+		g := itemGuard(ib[jj])
+		for t := j; t < jj; t++ {
+			gt := itemGuard(ib[t])
+			if gt == nil || !m.S.Exclusive(gt, g) {
+				if os.Getenv("VERIF_DEBUG_COMM") != "" {
+					fmt.Fprintf(os.Stderr, "comm: blocked by %s: %v vs %v\n", descItem(m.PB, ib[t]), gt, g)
+				}
+				return j
+			}
+		}
+		return jj
+	}
+	return j
+}
+
+func loadRun(items []interface{}) int {
+	n := 0
+	for _, it := range items {
+		if e, ok := it.(*Event); ok && e.Kind == "load" {
+			n++
+		} else {
+			break
+		}
+	}
+	return n
+}
+
+func (m *Matcher) pairLoads(as, bs []interface{}) ([]int, bool) {
+	perm := make([]int, len(as))
+	used := make([]bool, len(bs))
+	identity := true
+	for u, x := range as {
+		a := x.(*Event)
+		found := false
+		for v, y := range bs {
+			b := y.(*Event)
+			if used[v] || len(a.Path) != len(b.Path) {
+				continue
+			}
+			m.quiet++
+			ok, _ := m.eqTerms(a.Guard, b.Guard)
+			if ok {
+				ok, _ = m.eqTerms(a.Root, b.Root)
+			}
+			for i := 0; ok && i < len(a.Path); i++ {
+				ok, _ = m.eqTerms(a.Path[i], b.Path[i])
+			}
+			m.quiet--
+			if ok {
+				perm[u], used[v], found = v, true, true
+				if u != v {
+					identity = false
+				}
+				break
+			}
+		}
+		if !found {
+			return nil, false
+		}
+	}
+	_ = identity
+	return perm, true
 }
